@@ -2,7 +2,7 @@
 
 Theorems: SshAudit.Props.C09 (for every finite peer behaviour on the first connection: the read loops stop
 at the first stall, the packet reader raises nothing but the framing exits, a bounded number of recv calls,
-at most one stall waited for; an unclassified-ok handshake ends with status 1 and no algorithm report; an ok
+at most two stalls waited for on a connection; an unclassified-ok handshake ends with status 1 and no algorithm report; an ok
 handshake really carried a KEXINIT whose lists are reported; probe exceptions of every class are contained).
 Tie: (a) event-level: scripted recv sequences (data chunks of any segmentation / timeout / error / close) fed
 to the real audit() through a scripted socket vs. the model's `session.handshake` — handshake class, number
@@ -11,7 +11,7 @@ offset of the banner and first packet, early close, stall, every length field se
 wrong message type, duplicated and interleaved debug messages, extra pre-banner lines, 1-byte segmentation,
 random byte flips, malformed host-key blobs and group-exchange groups in the probe phase.
 Oracle: exit status in {0,1,2,3} and no traceback, ever; ok handshake => a complete algorithm report; broken
-handshake => status 1 and no algorithm report; number of stalls waited for <= number of connections made.
+handshake => status 1 and no algorithm report; number of stalls waited for <= 2 x number of connections made.
 """
 import io
 import json
@@ -30,9 +30,9 @@ THEOREMS = ['recv_spec', 'ensureReadAux_spec', 'ensureRead_spec', 'readPacket_no
             'readPacket_cost', 'handshake_cost', 'malformed_handshake_no_report', 'handshake_ok_sound', 'probe_misbehaviour_contained', 'probe_exception_is_none', 'readList_prefix', 'kexinit_prefix_rejected']
 TECHNIQUE = 'Lean 4 theorems (induction over arbitrary finite receive-event lists: stall and recv-call bounds, exception taxonomy of the packet reader, handshake classification ⇒ exit status) + event-level and byte-level fault-injection correspondence with audit()/main()'
 LEVEL_TEXT = ('The receive side of the socket class is modelled over arbitrary finite event lists (any bytes, any segmentation, stalls, resets, close) and it is proved by induction that every read loop stops at the first '
-              'stall, that the handshake waits for at most one timeout and makes at most (#events + 2) recv calls, that the packet reader can only leave through the two framing exits, and that every handshake class but "ok" '
+              'stall, that the handshake waits for at most two timeouts (one unless the identification line came without its line ending) and makes at most (#events + 2) recv calls, that the packet reader can only leave through the two framing exits, and that every handshake class but "ok" '
               'yields status 1 without an algorithm report. The same event scripts are replayed on the real audit() (class, recv count, stall count compared), and byte-level faults at every offset / length field / stage are injected into full audits.')
-LEVEL_NOTE = ('PARTIAL: wall-clock time is not modelled — a stall is one event, so "time <= c * timeout * #connections" is proved as "stalls waited for <= #connections" and exercised with the fake clock; the EAGAIN busy-retry path is unreachable with blocking sockets. '
+LEVEL_NOTE = ('PARTIAL: wall-clock time is not modelled — a stall is one event, so "time <= c * timeout * #connections" is proved as "stalls waited for <= 2 x #connections" and exercised with the fake clock; the EAGAIN busy-retry path is unreachable with blocking sockets. '
               'Probe-phase replies are modelled at the level of "any exception is contained" (D15 repair); their byte-level content is covered by C11/C12 and by the fault injection here. D16/D15 were repaired in /repo; D17 (segmented banner) is a C16 known finding and is modelled faithfully here.')
 
 
@@ -189,6 +189,17 @@ def gen_event_scripts(ctx):
     scripts.append(([banner, struct.pack('>IB', 4, 255) + good_kex()], ['corpus-D16']))
     scripts.append(([banner, struct.pack('>IB', 12, 11) + b'\0' * 11], ['corpus-D16-empty']))
     scripts.append(([b'SSH-2.0-Open', b'SSH_8.0\r\n', pktb], ['corpus-D17']))
+    # an identification line without its line ending is accepted once the peer has gone quiet (stall, error or close): up to two stalls
+    scripts.append(([b'SSH-2.0-OpenSSH_8.0', 't', pktb], ['unterminated-banner']))
+    scripts.append(([b'SSH-2.0-OpenSSH_8.0', 't', 't'], ['unterminated-banner', 'two-stalls']))
+    scripts.append(([b'SSH-2.0-OpenSSH_8.0', 'e', pktb[:9], 't'], ['unterminated-banner', 'two-stalls']))
+    scripts.append(([b'SSH-2.0-OpenSSH_8.0'], ['unterminated-banner']))
+    scripts.append(([b'hello\r\nSSH-2.0-Open', b'SSH_8.0', b' c\r', b'\n' + pktb], ['segmented-banner']))
+    scripts.append(([bytes([b]) for b in banner] + [pktb], ['segmented-banner', 'bytewise']))
+    scripts.append(([b'hel', b'lo\n', b'\r\n', b'SSH-2.0-X\n', pktb], ['segmented-banner']))
+    for k in range(1, len(banner)):
+        scripts.append(([banner[:k], banner[k:] + pktb], ['segmented-banner']))
+        scripts.append(([banner[:k], 't'], ['segmented-banner', 'unterminated-banner']))
     step = 1 if ctx.tier == 'thorough' else 3
     for k in range(0, len(pktb), step):
         scripts.append(([banner, pktb[:k]] if k else [banner], ['truncate-packet']))
@@ -305,8 +316,8 @@ def run(ctx):
             fail('malformed_handshake_reported', inp, {'exit': code, 'class': cls, 'stdout': out[:300]}, 'status 1 and no algorithm report')
         elif cls == 'ok' and code not in (0, 2, 3):
             fail('wellformed_handshake_no_report', inp, {'exit': code}, 'a report and status 0/2/3')
-        if sock.stalls > 1:
-            fail('more_than_one_stall_waited_for', inp, {'stalls': sock.stalls}, '<= 1 on one connection')
+        if sock.stalls > 2:
+            fail('more_than_two_stalls_waited_for', inp, {'stalls': sock.stalls}, '<= 2 on one connection (one for an unterminated identification line, one for the packet after it)')
         lines.append('session.handshake ' + ev_tokens(events))
         expect.append(({'class': cls, 'recvs': sock.recvs, 'stalls': sock.stalls}, inp))
     model = ctx.driver(lines) if ctx.driver_ok else []
@@ -329,8 +340,8 @@ def run(ctx):
                 fail('probe_misbehaviour_lost_report', inp, {'exit': code, 'stdout': out[-300:]}, 'status 0/2/3 and the complete report')
             elif not extra and not all(any(l.startswith(p) for l in out.split('\n')) for p in ('(kex) ', '(key) ', '(enc) ', '(mac) ')):
                 fail('probe_misbehaviour_lost_report', inp, {'exit': code, 'stdout': out[:300]}, 'all four algorithm sections')
-            if net.timeouts > len(net.connects):
-                fail('more_stalls_than_connections', inp, {'stalls': net.timeouts, 'connections': len(net.connects)}, 'stalls waited for <= connections made')
+            if net.timeouts > 2 * len(net.connects):
+                fail('more_stalls_than_connections', inp, {'stalls': net.timeouts, 'connections': len(net.connects)}, 'stalls waited for <= 2 x connections made')
             if net.unclosed():
                 fail('connection_left_open', inp, len(net.unclosed()), 0)
     fn.reset_dbs()
@@ -349,7 +360,7 @@ def replay(obj):
         cls = classify(code, out)
         print('exit', code, 'class', cls, 'recv calls', sock.recvs, 'stalls', sock.stalls)
         print(out[-600:])
-        bad = cls == 'TRACEBACK' or code not in (0, 1, 2, 3) or (cls != 'ok' and code != 1) or sock.stalls > 1
+        bad = cls == 'TRACEBACK' or code not in (0, 1, 2, 3) or (cls != 'ok' and code != 1) or sock.stalls > 2
         return 1 if bad else 0
     print(json.dumps(f, indent=1)[:1500])
     return 0
